@@ -144,7 +144,8 @@ def _gen_kind(rng, st, k):
         # (the other entry: new file / directory, a bare path that gets versioned, or an existing entry moved there)
         if len(st.slots) > MAX_SLOTS - 2:
             return None
-        cands = [q for q in sorted(st.versioned_paths) if q and st.tree_kinds.get(q) in ("file", "symlink", "directory")]
+        have = {s.path for s in st.slots if s.origin == "tree"}  # no second slot for one trans id: the per-slot bookkeeping would lie
+        cands = [q for q in sorted(st.versioned_paths) if q and q not in have and st.tree_kinds.get(q) in ("file", "symlink", "directory")]
         if not cands:
             return None
         how = rng.choice(["new_file", "new_file", "new_directory", "create_path", "adjust"])
